@@ -228,12 +228,13 @@ func runExec(c *Ctx) {
 	}
 
 	// ---- X2: the planning run is zeroed
-	var resCall ssa.CallInstruction
+	var resCalls []ssa.CallInstruction
 	for _, ci := range core.Calls(planner) {
 		if ci.Common().StaticCallee() == res {
-			resCall = ci
+			resCalls = append(resCalls, ci)
 		}
 	}
+	resCall := c.oneSite("EXEC-X2", "planner", "resolver call", resCalls)
 	var gbCall *ssa.Call
 	for _, ci := range core.Calls(planner) {
 		if ci.Common().StaticCallee() == gb {
@@ -632,10 +633,7 @@ func runOnce(c *Ctx, exec *ssa.Function, fnField, onceField, memoField string) {
 		return
 	}
 	// the executor together with its private steps (memo accessors, input-struct builder, invoke step …)
-	var rv ssa.CallInstruction
-	for _, ci := range p.RegionCalls(exec, core.RVCall) {
-		rv = ci
-	}
+	rv := c.oneSite("ONCE-O1", "executor", "reflect.Value.Call", p.RegionCalls(exec, core.RVCall))
 	if rv == nil {
 		return
 	}
